@@ -57,6 +57,21 @@ Section C19.
     In n (vg_nodes g) -> In w (v_wait n) -> (forall m, In m (vg_nodes g) -> ~ In w (v_outputs m)) -> valid g = false.
   Proof. exact (reject_wait_for_unknown ident_ok gname_ok end_name sub any_id). Qed.
 
+  (* three more flaws (round 7): a nested-graph node renamed to '' / 'a.b' / 'a/b', one node listing an output name twice,
+     a wait on a name that only the waiter itself produces *)
+  Theorem C19_illegal_graphnode_name : forall g n, targets_distinct g ->
+    In n (vg_nodes g) -> is_graphnode n = true -> gname_ok (v_name n) = false -> valid g = false.
+  Proof. exact (reject_illegal_graphnode_name ident_ok gname_ok end_name sub any_id). Qed.
+
+  Theorem C19_repeated_output_in_node : forall g n, targets_distinct g ->
+    In n (vg_nodes g) -> ~ NoDup (v_outputs n) -> valid g = false.
+  Proof. exact (reject_repeated_output_in_node ident_ok gname_ok end_name sub any_id). Qed.
+
+  Theorem C19_wait_for_own_output : forall g n w, targets_distinct g ->
+    In n (vg_nodes g) -> In w (v_wait n) ->
+    (forall m, In m (vg_nodes g) -> In w (v_outputs m) -> v_name m = v_name n) -> valid g = false.
+  Proof. exact (reject_wait_for_own_output ident_ok gname_ok end_name sub any_id). Qed.
+
   Theorem C19_bad_explicit_edge : forall g l s d vals, targets_distinct g ->
     vg_edges g = Some l -> In (ESpec s d vals) l ->
     (~ In s (names (vg_nodes g)) \/ ~ In d (names (vg_nodes g)) \/
@@ -131,6 +146,9 @@ Print Assumptions C19_illegal_output_name.
 Print Assumptions C19_illegal_graph_name.
 Print Assumptions C19_inconsistent_defaults.
 Print Assumptions C19_wait_for_unknown.
+Print Assumptions C19_illegal_graphnode_name.
+Print Assumptions C19_repeated_output_in_node.
+Print Assumptions C19_wait_for_own_output.
 Print Assumptions C19_bad_explicit_edge.
 Print Assumptions C19_type_flaw.
 Print Assumptions C19_type_flaw_explicit.
